@@ -50,7 +50,7 @@ fn model_text(rng: &mut StdRng) -> (String, Vec<(String, Vec<(String, &'static s
     // returns the text and (entity, [(field, type)])
     let mut ents = Vec::new();
     let mut used = std::collections::HashSet::new();
-    let mut text = String::from("{\n  Probe{ n:Integer nullable, s:String nullable }\n");
+    let mut text = String::from("{\n  Probe{ n:Integer nullable, s:String nullable, jd:Json default \"{}\", kid:Probe }\n");
     text.push_str(&format!("  Wide{{ {} }}\n", (0..70).map(|i| format!("c{}:Integer nullable", i)).collect::<Vec<_>>().join(", ")));
     for _ in 0..rng.gen_range(2..5) {
         let name = loop {
@@ -608,13 +608,20 @@ async fn session(tier: Tier, seed: u64, case: u64, dir: std::path::PathBuf) -> A
     // (i) extreme requests
     for _ in 0..tier.pick(4, 10) {
         let pb = panics();
-        let v = rng.gen_range(0..20);
+        let v = rng.gen_range(0..27);
         // requests of this family that are valid for the language and the model: any error is a finding
-        let must_succeed = matches!(v, 15 | 16 | 18 | 19);
+        let must_succeed = matches!(v, 15 | 16 | 18 | 19 | 22 | 23 | 24 | 25 | 26);
         let (what, text): (&str, String) = match v {
             15 => ("literal-ending-with-an-escaped-backslash", "mutate { Probe{ s:\"C:\\\\\" } }".to_string()),
             16 => ("braces-in-a-literal-after-a-literal-ending-with-an-escaped-backslash", format!("query {{ Probe(s = \"C:\\\\\", s != \"{}\"){{ n }} }}", "{".repeat(20))),
             17 => ("deep-nesting-after-a-literal-ending-with-an-escaped-backslash", format!("mutate {{ Probe{{ s:\"C:\\\\\" {} n:1 {} }} }}", "a:{ ".repeat(20000), "} ".repeat(20000))),
+            20 => ("deep-nesting-after-a-literal-with-an-escaped-quote", format!("mutate {{ Probe{{ s:\"5\\\" nail\" {} n:1 {} }} }}", "a:{ ".repeat(20000), "} ".repeat(20000))),
+            21 => ("deep-nesting-after-a-comment-with-a-quote", format!("mutate {{ // a comment with a \" in it\n Probe{{ {} n:1 {} }} }}", "a:{ ".repeat(20000), "} ".repeat(20000))),
+            22 => ("braces-in-a-comment", format!("query {{ // {}\n Probe{{ n }} }}", "{".repeat(40))),
+            23 => ("braces-in-a-literal-after-a-literal-with-an-escaped-quote", format!("query {{ Probe(s = \"5\\\" nail\", s != \"{}\"){{ n }} }}", "{".repeat(20))),
+            24 => ("json-selector-on-a-json-field-with-a-default", "query { Probe{ v: jd->$.a } }".to_string()),
+            25 => ("filter-on-a-system-date-inside-a-nested-entity", "query { Probe(nullable(kid)){ n kid(cdate > 0){ n } } }".to_string()),
+            26 => ("filter-on-the-author-key-inside-a-nested-entity", "query { Probe(nullable(kid)){ n kid(verifying_key != \"AAAA\"){ n } } }".to_string()),
             18 => ("selection-of-40-fields", format!("query {{ Wide{{ {} }} }}", (0..40).map(|i| format!("c{}", i)).collect::<Vec<_>>().join(" "))),
             19 => ("selection-of-70-fields", format!("query {{ Wide{{ {} }} }}", (0..70).map(|i| format!("c{}", i)).collect::<Vec<_>>().join(" "))),
             0 => ("deeply-nested-braces", format!("query {{ Probe{} n {} }}", "{".repeat(20000), "}".repeat(20000))),
